@@ -47,6 +47,8 @@ class World:
         self.u, self.du, self.v, self.p, self.dp, self.f = [e(self.V, name=n + sfx) for n in ('u', 'du', 'v', 'p', 'dp', 'f')]
         self.U, self.dU, self.Vt = [e(self.W, name=n + sfx) for n in ('U', 'dU', 'Vt')]
         self.c = m['Constant']('c')
+        # a user coefficient with the most likely name of an internal auxiliary (seed C09-2)
+        self.c2 = m['Constant']('eps')
         self.coords = list(self.domain.coordinates) if dim > 1 else [self.domain.coordinates]
         b = self.domain.boundary
         self.faces = list(b.args) if hasattr(b, 'args') and len(getattr(b, 'args', ())) > 1 else [b]
@@ -111,7 +113,7 @@ def gen_form(rng, w):
         reg = rng.choice(w.faces) if bnd else w.domain
         e = S.Zero
         for _ in range(rng.choice([1, 2])):
-            e += nonlinear(rng, w, fields) * test_part(rng, w, fields, bnd)
+            e += rng.choice([1, 1, 1, w.c2, w.c2 ** 2]) * nonlinear(rng, w, fields) * test_part(rng, w, fields, bnd)
         if rng.random() < 0.3:
             e += w.f * w.v            # a term independent of the field
         ints.append((reg, e))
